@@ -23,13 +23,20 @@ def make_row(pairs, rev):
     from src.correlation.peak import Peak
     pos = [ScoredAlignedPair(AlignedPair(PositionWithSiteId(r, 1000 * r), PositionWithSiteId(q, 1000 * q), 0), 1000.)
            for r, q in pairs]
-    # split into two segments now and then: cigarString must not depend on segment boundaries
-    if len(pos) >= 4 and (len(pos) + pairs[0][0]) % 3 == 0:
-        h = len(pos) // 2
-        segs = [AlignmentSegment(pos[:h], 1000. * h, Peak(0, 1.), pos), AlignmentSegment(pos[h:], 1000. * (len(pos) - h),
-                                                                                         Peak(0, 1.), pos)]
-    else:
-        segs = [AlignmentSegment(pos, 1000. * len(pos), Peak(0, 1.), pos)]
+    # split into segments now and then: cigarString must not depend on segment boundaries (halves; a first or a last
+    # segment of exactly one pair; three segments)
+    how = (len(pos) + pairs[0][0]) % 5
+    cuts = []
+    if len(pos) >= 4 and how == 0:
+        cuts = [len(pos) // 2]
+    elif len(pos) >= 2 and how == 1:
+        cuts = [1]
+    elif len(pos) >= 2 and how == 2:
+        cuts = [len(pos) - 1]
+    elif len(pos) >= 5 and how == 3:
+        cuts = [1, len(pos) // 2 + 1]
+    bounds = [0] + cuts + [len(pos)]
+    segs = [AlignmentSegment(pos[a:b], 1000. * (b - a), Peak(0, 1.), pos) for a, b in zip(bounds, bounds[1:])]
     return AlignmentResultRow(segs, reverseStrand=rev)
 
 
